@@ -63,8 +63,11 @@ func init() {
 		tr.emit(map[string]any{"ev": "snaend"})
 	}
 
-	// wrapdiff: one seeded schedule replayed at several initial-TSN pairs; per-endpoint normalised
-	// projections must be identical. Every run is also a normal scenario for ObsTrace.
+	// wrapdiff: one seeded plan run at several initial-TSN pairs around the 2^32 / 2^31 boundaries (and
+	// with SSN/MID counters preset just below their wraps). There is deliberately NO trace-equality
+	// verdict between the runs: goroutine scheduling inside an endpoint makes two runs of one plan differ
+	// legitimately. Wrap invisibility is decided by validating every run, normalised, against the
+	// base-free specifications (ObsTrace monitors, RecvTSN, Reasm).
 	vfModes["wrapdiff"] = func(t *testing.T) {
 		seed := int64(vfEnvInt("VF_SEED", 1))
 		shard := vfEnvInt("VF_SHARD", 0)
@@ -75,131 +78,40 @@ func init() {
 			t.Fatal(err)
 		}
 		defer tr.close()
-		profiles := []string{"basic", "lossy", "pr", "reorder", "il"}
+		profiles := []string{"wrap", "lossy", "pr", "reorder", "il"}
 		for k := 0; k < n; k++ {
 			s := seed*100000 + int64(shard)*1000 + int64(k)
 			r := rand.New(rand.NewSource(s ^ 0x77))
 			base := vfPlanXfer(s, profiles[k%len(profiles)])
 			base.NMsgs = 4 + r.Intn(8)
 			base.Budget = 600
-			pairs := [][2]uint32{{0, 0}, {0, 0}}
-			for len(pairs) < nb+1 {
+			for i := range base.Streams {
+				base.Streams[i].seqWrap = 1 + r.Intn(3)
+			}
+			for pi := 0; pi < nb; pi++ {
 				o1 := vfWrapOffsets[r.Intn(len(vfWrapOffsets))]
 				o2 := vfWrapOffsets[r.Intn(len(vfWrapOffsets))]
+				var pr [2]uint32
 				switch r.Intn(4) {
 				case 0:
-					pairs = append(pairs, [2]uint32{uint32(0) - o1, uint32(0) - o2})
+					pr = [2]uint32{uint32(0) - o1, uint32(0) - o2}
 				case 1:
-					pairs = append(pairs, [2]uint32{1<<31 - o1, uint32(0) - o2})
+					pr = [2]uint32{1<<31 - o1, uint32(0) - o2}
 				case 2:
-					pairs = append(pairs, [2]uint32{uint32(0) - o1, r.Uint32()})
+					pr = [2]uint32{uint32(0) - o1, r.Uint32()}
 				default:
-					pairs = append(pairs, [2]uint32{uint32(0) - uint32(r.Intn(12)) - 1, uint32(0) - uint32(r.Intn(12)) - 1})
+					pr = [2]uint32{uint32(0) - uint32(r.Intn(12)) - 1, uint32(0) - uint32(r.Intn(12)) - 1}
 				}
-			}
-			var ref []string
-			deterministic := true
-			for pi, pr := range pairs {
 				x := base
 				x.A.InitTSN, x.B.InitTSN = pr[0], pr[1]
 				x.Label = fmt.Sprintf("wrapdiff-%s#%d@%d", x.Profile, s, pi)
-				mem, _ := vfNewTrace("")
-				if vfRunXfer(t, mem, x) {
+				if vfRunXfer(t, tr, x) {
 					t.Fatalf("scenario %s hung", x.Label)
 				}
-				proj := vfProject(mem.keep)
-				for _, e := range mem.keep {
-					tr.emit(e)
-				}
-				switch {
-				case pi == 0:
-					ref = proj
-				case pi == 1:
-					if d := vfFirstDiff(ref, proj); d >= 0 {
-						deterministic = false // the schedule itself is not reproducible: no verdict
-					}
-				default:
-					if !deterministic {
-						continue
-					}
-					d := vfFirstDiff(ref, proj)
-					ev := map[string]any{"ev": "diff", "label": x.Label, "equal": d < 0, "idx": d, "a": "", "b": ""}
-					if d >= 0 {
-						if d < len(ref) {
-							ev["a"] = ref[d]
-						}
-						if d < len(proj) {
-							ev["b"] = proj[d]
-						}
-					}
-					tr.emit(map[string]any{"ev": "cfg", "label": x.Label + "-diff", "A": map[string]any{"il": false, "zc": false, "mtu": 0, "buf": 0, "maxmsg": 0, "W": 0, "rtomax": 0, "bw": false, "mincwnd": 0, "sched": "", "server": false, "wrapdist": 0},
-						"B": map[string]any{"il": false, "zc": false, "mtu": 0, "buf": 0, "maxmsg": 0, "W": 0, "rtomax": 0, "bw": false, "mincwnd": 0, "sched": "", "server": false, "wrapdist": 0}})
-					tr.emit(ev)
-					tr.emit(map[string]any{"ev": "end", "clean": true, "leaks": 0, "t": 0})
-				}
-			}
-			if !deterministic {
-				tr.emit(map[string]any{"ev": "note", "what": "nondeterministic-schedule", "seed": s})
 			}
 		}
 	}
-}
-
-// vfProject renders the base-independent behaviour of a run: per endpoint, the sequence of API
-// results, packets written (structure and relative sequence numbers) and the final snapshot.
-func vfProject(evs []map[string]any) []string {
-	// one sequence per (endpoint, category): API results and wire output are produced by different
-	// goroutines, so only their per-category order is meaningful
-	seqs := map[string][]string{}
-	last := map[int]string{}
-	for _, e := range evs {
-		ep, _ := e["ep"].(int)
-		switch e["ev"] {
-		case "write", "read", "cb":
-			k := fmt.Sprintf("api%d", ep)
-			seqs[k] = append(seqs[k], vfStable(e, "t"))
-		case "c", "tx":
-			k := fmt.Sprintf("wire%d", ep)
-			seqs[k] = append(seqs[k], vfStable(e, "t", "pid"))
-		case "snap":
-			last[ep] = vfStable(e, "t", "rto")
-		}
-	}
-	var out []string
-	for _, k := range []string{"api0", "api1", "wire0", "wire1"} {
-		out = append(out, "== "+k)
-		out = append(out, seqs[k]...)
-	}
-	out = append(out, "final0:"+last[0], "final1:"+last[1])
-	return out
-}
-
-func vfStable(e map[string]any, drop ...string) string {
-	m := map[string]any{}
-	for k, v := range e {
-		m[k] = v
-	}
-	for _, d := range drop {
-		delete(m, d)
-	}
-	b, _ := json.Marshal(m)
-	return string(b)
-}
-
-func vfFirstDiff(a, b []string) int {
-	n := len(a)
-	if len(b) < n {
-		n = len(b)
-	}
-	for i := 0; i < n; i++ {
-		if a[i] != b[i] {
-			return i
-		}
-	}
-	if len(a) != len(b) {
-		return n
-	}
-	return -1
 }
 
 var _ = strings.TrimSpace
+var _ = json.Marshal
